@@ -6,6 +6,12 @@
 #include <etl/variant.hpp>
 #include <etl/expected.hpp>
 #include <etl/utility.hpp>
+#include <etl/inplace_vector.hpp>
+#include <etl/set.hpp>
+#include <etl/flat_set.hpp>
+#include <etl/stack.hpp>
+#include <etl/memory.hpp>
+#include <etl/functional.hpp>
 #include <etl/new.hpp>
 #include <etl/type_traits.hpp>
 #ifndef VF_N
@@ -133,4 +139,134 @@ VF_E void tx_dtor(X& a) { a.~X(); }
 VF_E bool tx_has_value(X const& a) { return a.has_value(); }
 VF_E T* tx_arrow(X& a) { return a.operator->(); }
 VF_E T2* tx_error(X& a) { return &a.error(); }
+
+// ---- inplace_vector<Tracked, N> (no assignment operators, no insert/erase in the library) ----------------------------
+using IV = etl::inplace_vector<T, VF_N>;
+VF_E void ti_value_init(IV* out) { new (out) IV(); }
+VF_E void ti_copy_ctor(IV* out, IV const& o) { new (out) IV(o); }
+VF_E void ti_move_ctor(IV* out, IV& o) { new (out) IV(etl::move(o)); }
+VF_E void ti_dtor(IV& v) { v.~IV(); }
+VF_E T* ti_try_emplace_back(IV& v, id_type i) { return v.try_emplace_back(i); }
+VF_E T* ti_try_push_back(IV& v, T const& x) { return v.try_push_back(x); }
+VF_E T* ti_try_push_back_rv(IV& v, T& x) { return v.try_push_back(etl::move(x)); }
+VF_E T* ti_unchecked_emplace_back(IV& v, id_type i) { return &v.unchecked_emplace_back(i); }
+VF_E T* ti_unchecked_push_back(IV& v, T const& x) { return &v.unchecked_push_back(x); }
+VF_E T* ti_unchecked_push_back_rv(IV& v, T& x) { return &v.unchecked_push_back(etl::move(x)); }
+VF_E void ti_pop_back(IV& v) { v.pop_back(); }
+VF_E void ti_clear(IV& v) { v.clear(); }
+
+// ---- static_set<Tracked, N> ------------------------------------------------------------------------------------------
+using SS = etl::static_set<T, VF_N>;
+VF_E void ts_default(SS* out) { new (out) SS; }
+VF_E void ts_ctor_range(SS* out, T const* f, T const* l) { new (out) SS(f, l); }
+VF_E void ts_copy_ctor(SS* out, SS const& o) { new (out) SS(o); }
+VF_E void ts_move_ctor(SS* out, SS& o) { new (out) SS(etl::move(o)); }
+VF_E void ts_copy_assign(SS& a, SS const& b) { a = b; }
+VF_E void ts_move_assign(SS& a, SS& b) { a = etl::move(b); }
+VF_E void ts_dtor(SS& s) { s.~SS(); }
+VF_E bool ts_insert(SS& s, T const& x, T** pos) { auto r = s.insert(x); *pos = r.first; return r.second; }
+VF_E bool ts_insert_rv(SS& s, T& x, T** pos) { auto r = s.insert(etl::move(x)); *pos = r.first; return r.second; }
+VF_E bool ts_emplace(SS& s, id_type i, T** pos) { auto r = s.emplace(i); *pos = r.first; return r.second; }
+VF_E void ts_insert_range(SS& s, T const* f, T const* l) { s.insert(f, l); }
+VF_E T* ts_erase(SS& s, T* pos) { return s.erase(pos); }
+VF_E size_type ts_erase_key(SS& s, T const& k) { return s.erase(k); }
+VF_E void ts_clear(SS& s) { s.clear(); }
+VF_E void ts_swap(SS& a, SS& b) { a.swap(b); }
+VF_E T* ts_find(SS& s, T const& k) { return s.find(k); }
+
+// ---- flat_set<Tracked, static_vector<Tracked, N>> --------------------------------------------------------------------
+// The comparator has one byte of state: cxx2c does not lower [[no_unique_address]], an EMPTY comparator member would give the C
+// struct a different size (layout _Static_assert fails).
+struct TLess { unsigned char salt; auto operator()(T const& a, T const& b) const noexcept -> bool { return a < b; } };
+using FS = etl::flat_set<T, V, TLess>;
+VF_E void tf_default(FS* out) { new (out) FS; }
+VF_E void tf_copy_ctor(FS* out, FS const& o) { new (out) FS(o); }
+VF_E void tf_move_ctor(FS* out, FS& o) { new (out) FS(etl::move(o)); }
+VF_E void tf_copy_assign(FS& a, FS const& b) { a = b; }
+VF_E void tf_move_assign(FS& a, FS& b) { a = etl::move(b); }
+VF_E void tf_dtor(FS& s) { s.~FS(); }
+VF_E bool tf_insert(FS& s, T const& x, T** pos) { auto r = s.insert(x); *pos = r.first; return r.second; }
+VF_E bool tf_insert_rv(FS& s, T& x, T** pos) { auto r = s.insert(etl::move(x)); *pos = r.first; return r.second; }
+VF_E bool tf_emplace(FS& s, id_type i, T** pos) { auto r = s.emplace(i); *pos = r.first; return r.second; }
+VF_E T* tf_erase(FS& s, T* pos) { return s.erase(pos); }
+VF_E T* tf_erase_range(FS& s, T const* f, T const* l) { return s.erase(f, l); }
+VF_E size_type tf_erase_key(FS& s, T const& k) { return s.erase(k); }
+VF_E void tf_clear(FS& s) { s.clear(); }
+VF_E void tf_swap(FS& a, FS& b) { a.swap(b); }
+VF_E void tf_extract(FS& s, V* out) { new (out) V(etl::move(s).extract()); }
+VF_E void tf_replace(FS& s, V& c) { s.replace(etl::move(c)); }
+
+// ---- stack<Tracked, static_vector<Tracked, N>> -----------------------------------------------------------------------
+using ST = etl::stack<T, V>;
+VF_E void tk_push(ST& s, T const& x) { s.push(x); }
+VF_E void tk_push_rv(ST& s, T& x) { s.push(etl::move(x)); }
+VF_E void tk_emplace(ST& s, id_type i) { s.emplace(i); }
+VF_E void tk_pop(ST& s) { s.pop(); }
+VF_E void tk_swap(ST& a, ST& b) { a.swap(b); }
+VF_E void tk_copy_ctor(ST* out, ST const& o) { new (out) ST(o); }
+VF_E void tk_move_ctor(ST* out, ST& o) { new (out) ST(etl::move(o)); }
+VF_E void tk_ctor_cont(ST* out, V const& c) { new (out) ST(c); }
+VF_E void tk_dtor(ST& s) { s.~ST(); }
+
+// ---- raw storage: uninitialized_copy/move/fill, construct_at, destroy, destroy_n, destroy_at, ranges::destroy(_at) ----
+VF_E T* tm_uninit_copy(T const* f, T const* l, T* d) { return etl::uninitialized_copy(f, l, d); }
+VF_E T* tm_uninit_move(T* f, T* l, T* d) { return etl::uninitialized_move(f, l, d); }
+VF_E void tm_uninit_fill(T* f, T* l, T const& x) { etl::uninitialized_fill(f, l, x); }
+VF_E T* tm_construct_at(T* p, id_type i) { return etl::construct_at(p, i); }
+VF_E T* tm_ranges_construct_at(T* p, T const& x) { return etl::ranges::construct_at(p, x); }
+VF_E void tm_destroy(T* f, T* l) { etl::destroy(f, l); }
+VF_E T* tm_destroy_n(T* f, size_type n) { return etl::destroy_n(f, n); }
+VF_E void tm_destroy_at(T* p) { etl::destroy_at(p); }
+VF_E T* tm_ranges_destroy(T* f, T* l) { return etl::ranges::destroy(f, l); }
+VF_E void tm_ranges_destroy_at(T* p) { etl::ranges::destroy_at(p); }
+
+// ---- inplace_function<int(int), 8, 1> holding an instrumented functor ------------------------------------------------
+struct Fn { VF_TRACKED_COMMON(Fn, 3) VF_TRACKED_COPY(Fn, 3) VF_TRACKED_MOVE(Fn, 3)
+    auto operator()(int x) const noexcept -> int { g_use(this, 3); return (x & 1) + id; } };
+using F = etl::inplace_function<int(int), 8, 1>;
+VF_E void tn_default(F* out) { new (out) F; }
+VF_E void tn_nullptr(F* out) { new (out) F(nullptr); }
+VF_E void tn_from(F* out, Fn const& f) { new (out) F(f); }
+VF_E void tn_from_rv(F* out, Fn& f) { new (out) F(etl::move(f)); }
+VF_E void tn_copy_ctor(F* out, F const& o) { new (out) F(o); }
+VF_E void tn_move_ctor(F* out, F& o) { new (out) F(etl::move(o)); }
+VF_E void tn_assign(F& a, F const& b) { a = b; }
+VF_E void tn_assign_rv(F& a, F& b) { a = etl::move(b); }
+VF_E void tn_assign_null(F& a) { a = nullptr; }
+VF_E void tn_assign_fn(F& a, Fn const& f) { a = f; }
+VF_E int tn_call(F const& a, int x) { return a(x); }
+VF_E bool tn_bool(F const& a) { return static_cast<bool>(a); }
+VF_E void tn_swap(F& a, F& b) { a.swap(b); }
+VF_E void tn_dtor(F& a) { a.~F(); }
+
+// ---- move-only and copy-only element types in static_vector ----------------------------------------------------------
+struct MoveOnly { VF_TRACKED_COMMON(MoveOnly, 4) VF_TRACKED_MOVE(MoveOnly, 4)
+    MoveOnly(MoveOnly const&) = delete; auto operator=(MoveOnly const&) -> MoveOnly& = delete; };
+struct CopyOnly { VF_TRACKED_COMMON(CopyOnly, 5) VF_TRACKED_COPY(CopyOnly, 5) };   // no move members: every move degrades to a copy
+static_assert(!etl::is_copy_constructible_v<MoveOnly> && etl::is_move_constructible_v<MoveOnly>);
+using TM = MoveOnly;
+using VM = etl::static_vector<TM, VF_N>;
+VF_E void tvm_push_back_rv(VM& v, TM& x) { v.push_back(etl::move(x)); }
+VF_E void tvm_emplace_back(VM& v, id_type i) { v.emplace_back(i); }
+VF_E void tvm_pop_back(VM& v) { v.pop_back(); }
+VF_E TM* tvm_insert_rv(VM& v, TM const* pos, TM& x) { return v.insert(pos, etl::move(x)); }
+VF_E TM* tvm_emplace(VM& v, TM const* pos, id_type i) { return v.emplace(pos, i); }
+VF_E TM* tvm_erase_range(VM& v, TM const* f, TM const* l) { return v.erase(f, l); }
+VF_E void tvm_resize(VM& v, size_type n) { v.resize(n); }
+VF_E void tvm_clear(VM& v) { v.clear(); }
+VF_E void tvm_move_ctor(VM* out, VM& o) { new (out) VM(etl::move(o)); }
+// not instantiable: static_vector::operator=(static_vector&&) requires is_assignable_v<reference, reference> (COPY-assignability of
+// the element), so a static_vector of move-only elements has no move assignment and swap() does not compile.
+VF_E void tvm_dtor(VM& v) { v.~VM(); }
+using TC = CopyOnly;
+using VC = etl::static_vector<TC, VF_N>;
+VF_E void tvc_push_back(VC& v, TC const& x) { v.push_back(x); }
+VF_E void tvc_push_back_rv(VC& v, TC& x) { v.push_back(etl::move(x)); }
+VF_E TC* tvc_insert(VC& v, TC const* pos, TC const& x) { return v.insert(pos, x); }
+VF_E TC* tvc_insert_n(VC& v, TC const* pos, size_type n, TC const& x) { return v.insert(pos, n, x); }
+VF_E TC* tvc_erase_range(VC& v, TC const* f, TC const* l) { return v.erase(f, l); }
+VF_E void tvc_resize_x(VC& v, size_type n, TC const& x) { v.resize(n, x); }
+VF_E void tvc_copy_ctor(VC* out, VC const& o) { new (out) VC(o); }
+VF_E void tvc_copy_assign(VC& a, VC const& b) { a = b; }
+VF_E void tvc_dtor(VC& v) { v.~VC(); }
 }
